@@ -1154,12 +1154,22 @@ def gen_fragment(repo, d, body, report):
             edits.add(toks[p0].start, toks[p1].end, hdr + "\n" + text + "\n{ " + bind, "R7", "closure header")
             edits.add(toks[c1].end, toks[c1].end, " }", "R7", "")
             stats["R7"] = stats.get("R7", 0) + 1
+        elif sub["kind"] == "hoist":
+            # R15 in a fragment: the type declared inside the statement range is lifted out (extracted at module level by the
+            # template with `/*@type ... deep=1 @*/`); an empty marker-trait impl for it (`impl Tr for Ty {}`) goes with it
+            ty = src.find_type(sub["args"][0], (a0, b1 + 1), deep=True)
+            edits.add(toks[ty["attrs"]].start, toks[ty["end"]].end, "", "R15", f"nested type {sub['args'][0]} hoisted to module level")
+            stats["R15"] = stats.get("R15", 0) + 1
+            for q in range(a0, b1 - 4):
+                if (toks[q].text == "impl" and toks[q + 2].text == "for" and toks[q + 3].text == sub["args"][0]
+                        and toks[q + 4].text == "{" and toks[q + 5].text == "}"):
+                    edits.add(toks[q].start, toks[q + 5].end, "", "R15", f"marker impl `{toks[q + 1].text}` of the hoisted type dropped")
         elif sub["kind"] == "rewrite":
             o = kv(sub["args"][2:])
             a, b = src.find_seq(a0, b1 + 1, sub["args"][0], int(o.get("nth", 1)))
             edits.add(toks[a].start, toks[b].end, sub["args"][1], o.get("rule", "REWRITE"),
                       f"`{sub['args'][0]}` => `{sub['args'][1]}`")
-    rewrite_for_loops(src, a0, b1 + 1, edits, stats)
+    rewrite_for_loops(src, a0, b1 + 1, edits, stats, d.get("incl_ranges") == "1", d.get("for_names") == "1", d.get("range_as_while") == "1")
     if d.get("try_all") == "1":
         auto_try(src, a0, b1 + 1, edits, stats)
     entry_text = ""
